@@ -40,6 +40,14 @@ class IEnum(enum.Enum):
     n = -7
 
 
+class StrMixin(str, enum.Enum):
+    red = "r'ed"
+
+
+class IntMixin(enum.IntEnum):
+    five = 5
+
+
 TZ = dt.timezone(dt.timedelta(hours=5, minutes=30))
 
 
@@ -55,7 +63,7 @@ def other_values():
     V += [("bool", 0), ("bool", 1), ("none", 0)]
     for i in range(7):
         V.append(("temporal", i))
-    V += [("uuid", 0), ("enum", 0), ("enum", 1), ("enum", 2)]
+    V += [("uuid", 0), ("enum", 0), ("enum", 1), ("enum", 2), ("enum", 3), ("enum", 4)]
     return V
 
 
@@ -80,7 +88,7 @@ def value_of(kind, tag):
     if kind == "uuid":
         return uuid.UUID("12345678-1234-5678-1234-567812345678")
     if kind == "enum":
-        return [SEnum.q, SEnum.b, IEnum.n][tag]
+        return [SEnum.q, SEnum.b, IEnum.n, StrMixin.red, IntMixin.five][tag]
     if kind == "json":
         return json.loads(tag)
     raise ValueError(kind)
